@@ -13,7 +13,7 @@ RULES = [
     {'rule': {'kind': 'string'}, 'message': 'string literal', 'note': 'strings are suspicious'},
 ]
 SEVS = ['error', 'warning', 'info', 'hint', 'off']
-LINES = ['foo(1);', 'bar(2, x);', 'let v = a + b;', 'foo(foo("s"));', 'baz();', 'x = "é" + y;', 'bar();', '  foo(z)  ;', 'let w = 3']
+LINES = ['foo(\n  1\n);', 'bar(2,\n    x);', 'let u = a +\n  "s";', '/* 日本 */ foo(é);', 'foo(1);', 'bar(2, x);', 'let v = a + b;', 'foo(foo("s"));', 'baz();', 'x = "é" + y;', 'bar();', '  foo(z)  ;', 'let w = 3']
 
 
 def gen_rules(rng):
@@ -96,7 +96,7 @@ def front_ends(rep, ctx, work, k, rng):
     for line in out.decode().splitlines():
         m = re.match(r'^::(error|warning|notice) file=([^,]*),line=(\d+),endLine=(\d+),title=([^:]*)::(.*)$', line)
         if m:
-            gh.append((m.group(5), int(m.group(3)) - 1, int(m.group(4)) - 1, m.group(6)))
+            gh.append((m.group(5), int(m.group(3)) - 1, int(m.group(4)) - 1, m.group(6).replace('%0A', '\n').replace('%0D', '\r').replace('%25', '%')))
     want = sorted((b[0], b[1], b[3], b[5] if b[5] else '') for b in base if by_id[b[0]].get('severity', 'hint') in ('error', 'warning', 'info'))
     gh_cmp = sorted((g[0], g[1], g[2], g[3]) for g in gh)
     if [(a, b, c) for a, b, c, _ in gh_cmp] != [(a, b, c) for a, b, c, _ in want]:
